@@ -118,12 +118,6 @@ def correspondence(ctx):
     for c in L.parse_cases(out):
         c["id"] = str(len(cases) + 1)
         cases.append(c)
-    # F2 (an error response of fetch v5/v10 left bytes on the connection) is being fixed in /repo
-    # by another check's owner: the model's desync flag follows the code that is there
-    f2fixed = "skipRemainingOnKafkaError" in open(os.path.join(L.REPO, "conn.go")).read()
-    for c in cases:
-        if f2fixed and c["op"] in ("e2e", "e2ef1"):
-            c["args"] += " f2fixed=1"
     text = "\n".join(c["id"] + " " + c["op"] + " " + c["args"] + " | " + c["go"] + " | " + c["feats"] for c in cases) + "\n"
     res = L.run_model(model, text)
     failures, seen_keys = [], {}
